@@ -324,9 +324,12 @@ impl Number {
             use std::collections::HashSet;
             use std::convert::TryFrom;
             // SI prefixes are raised to the power of the unit, which
-            // has to be an i32 that can also be negated.
+            // has to be an i32 that can also be negated. They are only
+            // tried for powers where that stays cheap: `m^100000`
+            // would otherwise raise every prefix to the 100000th
+            // power, three times each.
             let power = match i32::try_from(orig.1) {
-                Ok(power) if power != i32::MIN => power,
+                Ok(power) if power.unsigned_abs() <= 1000 => power,
                 _ => {
                     return Number {
                         value: self.value.clone(),
